@@ -105,6 +105,13 @@ def gen_case(rng, tier):
             for _ in range(nS):
                 toks += pow2_row(rng, nA) if rng.random() < 0.6 else dist_row(rng, nA, positive=True)
             toks += [every, n]
+    # extremal histories (constant extreme reward, tiny state space) drive the tables to the
+    # boundary of the box, where a wrong bootstrap term leaves it
+    extreme = kind in ("ql", "sarsa", "esarsa", "hyst", "dq") and rng.random() < 0.2
+    if extreme:
+        rconst = rng.choice(["12", "-12", "8", "-5"])
+        nS0 = min(nS, 2)
+        st = lambda: rng.randrange(nS0)
     # chained trajectory most of the time (s1 of a step is s of the next)
     chained = rng.random() < 0.7
     s = st()
@@ -112,12 +119,66 @@ def gen_case(rng, tier):
         a = ac(); s1 = st() if rng.random() < 0.8 else s
         toks += [s, a, s1]
         if kind in ("sarsa", "sarsal"): toks.append(ac())
-        toks.append(reward(rng, general))
+        toks.append(rconst if extreme else reward(rng, general))
         if kind == "esarsa": toks += dist_row(rng, nA)
         s = s1 if chained else st()
     return " ".join(map(str, toks))
 
 
+def gen_ps(rng, tier):
+    quiesce = rng.random() < 0.25
+    nS = rng.choice([1, 2, 3, 3, 4, 5]); nA = rng.choice([1, 2, 2, 3])
+    general = rng.random() < 0.2
+    if general:
+        gamma = rng.choice([(0.9).hex(), (0.5).hex()]); theta = rng.choice([(0.05).hex(), (0.3).hex()])
+    else:
+        gamma = rng.choice(["1/2", "3/4"]); theta = rng.choice(["0", "0", "0", "1/4", "1/1024"])
+    if quiesce:
+        theta = "0"
+    toks = ["psq" if quiesce else "ps", nS, nA, gamma, theta]
+    for a in range(nA):
+        for s in range(nS):
+            if general:
+                w = [rng.random() if rng.random() < 0.7 else 0.0 for _ in range(nS)]
+                if sum(w) == 0: w[rng.randrange(nS)] = 1.0
+                t = sum(w); toks += [(x / t).hex() for x in w]
+            else:
+                toks += dist_row(rng, nS, den=rng.choice([2, 4, 8]))
+    for s in range(nS):
+        for a in range(nA):
+            toks.append(reward(rng, general))
+    if not quiesce:
+        nops = rng.randint(1, 14)
+        toks.append(nops)
+        for _ in range(nops):
+            u = rng.random()
+            if u < 0.55: toks += ["s", rng.randrange(nS), rng.randrange(nA)]
+            elif u < 0.85: toks += ["b", rng.randint(1, 4)]
+            else: toks += ["B", rng.randint(1, 4)]
+    return " ".join(map(str, toks))
+
+
+def gen_dyna(rng, tier):
+    nS = rng.choice([1, 2, 3, 4, 5]); nA = rng.choice([1, 2, 3])
+    general = rng.random() < 0.2
+    alpha = rng.choice(["1", "1/2", "1/8"]) if not general else (0.1).hex()
+    gamma = rng.choice(["1/2", "3/4"]) if not general else (0.9).hex()
+    nops = rng.randint(1, 20)
+    toks = ["dyna", nS, nA, alpha, gamma, nops]
+    for _ in range(nops):
+        if rng.random() < 0.6:
+            toks += ["s", rng.randrange(nS), rng.randrange(nA), rng.randrange(nS), reward(rng, general)]
+        else:
+            N = rng.randint(1, 4)
+            toks += ["b", N]
+            for _ in range(N): toks += [rng.randrange(nS), reward(rng, general)]
+    return " ".join(map(str, toks))
+
+
 def gen(rng, tier):
-    n = {"quick": 360, "thorough": 3000, "search": 1200}[tier]
-    return [gen_case(rng, tier) for _ in range(n)]
+    n = {"quick": 500, "thorough": 4000, "search": 1500}[tier]
+    out = []
+    for _ in range(n):
+        u = rng.random()
+        out.append(gen_ps(rng, tier) if u < 0.22 else gen_dyna(rng, tier) if u < 0.28 else gen_case(rng, tier))
+    return out
